@@ -93,6 +93,8 @@ type c02Member struct {
 	pendingFL  []*async
 }
 
+func (m *c02Member) leaveHeardAny() bool { return len(m.leaveHeard) > 0 }
+
 type c02 struct {
 	r  *Run
 	c  *Cluster
@@ -624,38 +626,43 @@ func (e *c02) closing() {
 			if len(statuses) > 1 {
 				r.Fail("observers-disagree", "C02 disagree", "observers disagree on down member %s: %s", name, desc)
 			}
-			heard := false
+			// observers that applied the member's own leave intent, still run and still
+			// list the member (a prune erases it): "good" witnesses kept the knowledge,
+			// the others lost it through one of the two recorded mechanisms
+			good, flap, relayed := false, false, false
 			for o := range m.leaveHeard {
-				if e.m[o].running {
-					heard = true
+				if !e.m[o].running {
+					continue
+				}
+				if _, lists := c.View(o)[name]; !lists {
+					continue
+				}
+				switch {
+				case m.flapAfterLeave[o]:
+					flap = true
+				case m.ppResurrected[o]:
+					relayed = true
+				default:
+					good = true
 				}
 			}
-			if m.lastIncLeft && heard && m.forgedJoinMax <= m.lastLeaveL {
+			for o := range m.ppResurrected { // adopted the leave's time as a join time: cannot apply the leave any more
+				if e.m[o].running {
+					relayed = true
+				}
+			}
+			if m.lastIncLeft && (good || flap || relayed) && m.forgedJoinMax <= m.lastLeaveL {
 				r.Probe("clean-left-checked")
 				for st, who := range statuses {
 					if st != "left" {
 						key := "C02 left-not-left"
-						// every still-running observer that had applied the leave lost it again
-						// through one of the two recorded mechanisms (observers that never heard
-						// the leave cannot be expected to know)
-						flap, relayed, all := false, false, true
-						for o := range m.leaveHeard {
-							if !e.m[o].running {
-								continue
-							}
-							switch {
-							case m.flapAfterLeave[o]:
-								flap = true
-							case m.ppResurrected[o]:
-								relayed = true
-							default:
-								all = false
-							}
-						}
-						if all && relayed {
+						if !good && relayed {
 							key = "C02 leave-relayed-as-join-by-pushpull"
-						} else if all && flap {
+						} else if !good && flap {
 							key = "C02 leave-forgotten-after-flap"
+						}
+						if !good && !flap && !m.leaveHeardAny() {
+							continue
 						}
 						r.Fail("left-member-not-left", key, "member %s left gracefully (intent applied by a still-running observer) but %v list it as %s; all: %s", name, who, st, desc)
 					}
